@@ -28,6 +28,7 @@ type OpResult struct {
 	Int    int64             `json:"int,omitempty"`
 	Invoke int               `json:"invoke"`
 	Return int               `json:"return"`
+	LockStamp int            `json:"lockStamp,omitempty"`
 	Run    *RunInfo          `json:"-"`
 
 	unwound bool
@@ -356,4 +357,26 @@ func (e *Engine) SoloOps(ops []plan.Op) []*OpResult {
 		out = append(out, res)
 	}
 	return out
+}
+
+// ResolveLate dereferences the Variables kept by ops marked Late (to be called
+// once nothing can mutate the objects any more).
+func ResolveLate(rs []*OpResult) {
+	for _, r := range rs {
+		if r.late == nil {
+			continue
+		}
+		if r.Kind == plan.OpGet {
+			for _, v := range r.late {
+				val := FromGo(v.Value())
+				r.Val = &val
+			}
+		} else {
+			r.Vars = plan.Vars{}
+			for _, v := range r.late {
+				r.Vars[v.Name()] = FromGo(v.Value())
+			}
+		}
+		r.late = nil
+	}
 }
